@@ -622,6 +622,11 @@ def r14d(ctx):
             if call_name(n) in flow.sink_params:
                 exprs += [k.value for k in n.keywords if k.arg]
         bad = _rewrites(f.node, exprs, flow.lf(f), q)
+        # frozen exception, one symbol: package paths are relative IRIs, './Pictures/x' and 'Pictures/x' name the same member; Document.get_part/set_part strip the
+        # leading './' and merge_styles_from must use that same name for the manifest (it is not one of the identifiers of this property)
+        if f.ident == "Document.merge_styles_from":
+            bad = [c for c in bad if not (isinstance(c, ast.Call) and isinstance(c.func, ast.Attribute) and c.func.attr == "lstrip" and len(c.args) == 1
+                                          and isinstance(c.args[0], ast.Constant) and c.args[0].value == "./")]
         ctx.instance("R14d", f"{f.file}:{f.ident}", f"{len(exprs)} sink argument(s): built without lossy transformation", ok=not bad, nontrivial=bool(bad), line=f.node.lineno)
         for c in bad[:2]:
             how = "%-formatting with run-time text as the template" if isinstance(c, ast.BinOp) else f"`{norm(c.func, 30)}()`"
@@ -774,12 +779,101 @@ def property_names_cache(repo):
     return {}
 
 
+_FIXTURE_F = '''
+def ok_eq(self, name):
+    return self.get_element(f"descendant::text:bookmark[@text:name={xpath_string_literal(name)}]")
+def bad_prefix(self, path):
+    return self.xpath(f"//manifest:file-entry[starts-with(attribute::manifest:full-path, {xpath_string_literal(path)})]")
+def bad_contains(self, name):
+    return self.get_elements("descendant::table:table[contains(@table:name, " + xpath_string_literal(name) + ")]")
+def bad_neq(self, name):
+    return self.get_elements(f"descendant::text:section[@text:name!={xpath_string_literal(name)}]")
+'''
+
+
+def _literal_contexts(fn, helpers):
+    """(call of a quoting helper, the constant text that precedes it in the f-string / concatenation it sits in) inside a function"""
+    out = []
+    for j in walk_no_nested(fn):
+        pieces = None
+        if isinstance(j, ast.JoinedStr):
+            pieces = list(j.values)
+        elif isinstance(j, ast.BinOp) and isinstance(j.op, ast.Add):
+            flat, work = [], [j]
+            while work:
+                e = work.pop()
+                if isinstance(e, ast.BinOp) and isinstance(e.op, ast.Add):
+                    work += [e.right, e.left]
+                else:
+                    flat.append(e)
+            pieces = flat
+        if pieces is None:
+            continue
+        before = ""
+        for v in pieces:
+            if isinstance(v, ast.Constant) and isinstance(v.value, str):
+                before += v.value
+                continue
+            inner = v.value if isinstance(v, ast.FormattedValue) else v
+            if isinstance(inner, ast.JoinedStr):
+                continue
+            if isinstance(inner, ast.Call) and call_name(inner) in helpers:
+                out.append((inner, before))
+            before += "\0"
+    # the same helper call can be seen through nested concatenations: keep the longest context per call
+    best = {}
+    for c, b in out:
+        if id(c) not in best or len(b) > len(best[id(c)][1]):
+            best[id(c)] = (c, b)
+    return list(best.values())
+
+
+def r14f(ctx):
+    """An identifier is compared for equality.
+
+    "Only it": the literal that the quoting helper builds from the caller's identifier is the right-hand side of `=` in the predicate.
+    Inside starts-with(), contains(), ends-with(), matches() — or after `!=`, `<`, `>` — the lookup (or the deletion that follows it)
+    also takes objects whose identifier merely begins with, or contains, the one asked for: "Pictures/ab" then selects "Pictures/ab.png"
+    too.  Rule over every use of a quoting helper inside a string: the constant text in front of it ends with `=` (not `!=`, `<=`, `>=`),
+    and no string function of XPath is open at that point.  Expected count of deviations 0; fixture evaluated on every run.
+    """
+    repo = ctx.repo
+    ctx.rule("R14f", "every quoted identifier is the right-hand side of `=` in its predicate (no starts-with/contains/…, no other comparison)", floor=15)
+    helpers = set(quoting_helpers(repo)) | {"xpath_string_literal"}
+
+    def verdict(before: str):
+        tail = before.rstrip()
+        opened = [fn_ for fn_ in ("starts-with(", "contains(", "ends-with(", "matches(", "substring-after(", "substring-before(", "translate(")
+                  if tail.count(fn_) > 0 and tail.rfind(fn_) > max(tail.rfind("]"), -1) and tail[tail.rfind(fn_):].count("(") > tail[tail.rfind(fn_):].count(")")]
+        if opened:
+            return f"inside {opened[-1]}…)"
+        if not tail.endswith("=") or tail.endswith(("!=", "<=", ">=")):
+            return f"after `{tail[-12:]}`"
+        return None
+
+    tree = ast.parse(_FIXTURE_F)
+    got = {fn.name: [verdict(b) for _, b in _literal_contexts(fn, helpers)] for fn in tree.body}
+    if [bool(v and v[0]) for v in (got["ok_eq"], got["bad_prefix"], got["bad_contains"], got["bad_neq"])] != [False, True, True, True] or not all(got.values()):
+        raise AnalysisError(f"R14f fixture: comparison-context detector broken: {got}")
+    for f in repo.all_funcs():
+        if f.name in helpers:
+            continue
+        for c, before in _literal_contexts(f.node, helpers):
+            why = verdict(before)
+            ctx.instance("R14f", f"{f.file}:{f.ident}", f"`{norm(c, 40)}` compared with `=`", ok=why is None, nontrivial=True, line=c.lineno)
+            if why:
+                ctx.report("R14f", f, c, f"{norm(c, 50)} {why}",
+                           f"{f.ident} puts the quoted identifier {why} instead of on the right of `=`: objects whose identifier only starts with, contains or differs from the one given "
+                           f"are selected as well (and deleted or modified by what follows), e.g. 'Pictures/ab' also takes 'Pictures/ab.png'")
+
+
 def run(ctx):
     r14a(ctx)
     r14c(ctx)
     r14b(ctx)
     r14d(ctx)
     r14e(ctx)
+    r14f(ctx)
     # a named range is found under its table name only if the address writer and reader agree on how that name is quoted (rule shared with C19)
     from .c19 import r19b, r19f
     r19b(ctx)
@@ -810,6 +904,9 @@ SEEDS = [
     Seed("_filtered_element puts the position into the finished query with an f-string", "neutral", _EL,
          "        results = self._filtered_elements(query_string, **kwargs)\n        try:\n            return results[position]\n        except IndexError:\n            return None",
          "        if position >= 0 and not kwargs.get(\"content\"):\n            query = make_xpath_query(query_string, **kwargs)\n            found = self.get_element(f\"({query})[{position + 1}]\")\n            if found is not None or True:\n                pass\n        results = self._filtered_elements(query_string, **kwargs)\n        try:\n            return results[position]\n        except IndexError:\n            return None"),
+    Seed("Manifest.del_full_path deletes every entry that starts with the path", "fault", "src/odfdo/manifest.py",
+         "        file_entry = self._file_entry(full_path)\n        self.root.delete(file_entry)",
+         "        self._file_entry(full_path)\n        xpath_query = (\n            \"//manifest:file-entry[starts-with(\"\n            f\"attribute::manifest:full-path, {xpath_string_literal(full_path)})]\"\n        )\n        for file_entry in self.xpath(xpath_query):\n            self.root.delete(file_entry)", "R14f"),
     Seed("make_xpath_query trims the keyword it files", "fault", _XQ, 'attributes["text:name"] = text_name', 'attributes["text:name"] = text_name.strip()', "R14d"),
     Seed("make_xpath_query converts the value with str() first", "neutral", _XQ,
          '            query.append(f"[@{qname}={xpath_string_literal(value)}]")', '            shown = str(value)\n            query.append(f"[@{qname}={xpath_string_literal(shown)}]")'),
